@@ -204,6 +204,18 @@ def collapse_items(items: ExpandedItems, is_linetable: bool) -> CollapsedItems:
             and prev_item.bytecode_offset >= (254 if is_linetable else 255)
             and item.bytecode_offset != 0
         )
+        if is_linetable:
+            # For a section with no line, all of the split items have no line
+            # and an item with a line is never part of a section with no line
+            bytecode_offset_split = (
+                prev_item.bytecode_offset >= 254
+                and item.bytecode_offset != 0
+                and (
+                    item.line_offset == 0
+                    if prev_item.line_offset is not None
+                    else item.line_offset is None
+                )
+            )
         # However, when the line offset is split, the current bytecode offset should be
         # zero
         line_offset_split = (
